@@ -477,6 +477,10 @@ where
 
         if self.vring_needs_init(vring) {
             self.initialize_vring(vring, index)?;
+        } else {
+            // The ring is already started (or has no kick descriptor): the descriptor that was
+            // just installed replaces the registered one, so it has to be registered as well.
+            self.update_vring_registration(vring, index)?;
         }
 
         Ok(())
